@@ -214,24 +214,20 @@ func ruleC02R2(w *World, r *Report) {
 			if neg {
 				eqSide = 1
 			}
-			S, O := b.Succs[eqSide], b.Succs[1-eqSide]
-			reachO := reachSet(O)
-			reachO[O] = true
-			if reachO[S] {
-				continue // the equal side is not a separate region (loop conditions etc.)
+			S := b.Succs[eqSide]
+			if len(S.Preds) != 1 {
+				continue // the equal side is not a region of its own
 			}
+			// the region guarded by the test: the dominator subtree of S
 			region := map[*ssa.BasicBlock]bool{}
-			var grow func(x *ssa.BasicBlock)
-			grow = func(x *ssa.BasicBlock) {
-				if region[x] || reachO[x] {
-					return
-				}
-				region[x] = true
-				for _, s := range x.Succs {
-					grow(s)
+			for _, x := range fn.Blocks {
+				if x == S || S.Dominates(x) {
+					region[x] = true
 				}
 			}
-			grow(S)
+			if region[b] {
+				continue
+			}
 			consumes, traced := false, false
 			for x := range region {
 				for _, in := range x.Instrs {
@@ -273,10 +269,17 @@ func ruleC02R2(w *World, r *Report) {
 							break
 						}
 						var fromRegion, fromOther []ssa.Value
+						direct := false
+						for _, p := range s.Preds {
+							if p == b {
+								direct = true
+							}
+						}
 						for i, p := range s.Preds {
 							if region[p] {
 								fromRegion = append(fromRegion, phi.Edges[i])
-							} else {
+							} else if !direct || p == b {
+								// compare with the path that bypasses the region (the other outcome of the same test)
 								fromOther = append(fromOther, phi.Edges[i])
 							}
 						}
